@@ -22,3 +22,17 @@ fn p_callback_view() {
     kani::cover!(r, "continue");
     kani::cover!(!r, "stop");
 }
+
+static mut F_SEEN: (u32, usize, u32) = (0, 0, 0);
+extern "C" fn foreign_cb(ctx: *mut c_void, x: u32) -> bool { unsafe { F_SEEN = (F_SEEN.0 + 1, ctx as usize, x); } x % 2 == 0 }
+#[kani::proof]
+fn p_callback_foreign_built() {
+    // a callback BUILT BY A C CALLER: call() invokes the published function once with the published context
+    let mut ctx: u64 = 0;
+    let x: u32 = kani::any();
+    let view = CbView::<u32> { context: &mut ctx as *mut u64 as *mut c_void, func: foreign_cb };
+    let mut cb: OpaqueCallback<u32> = unsafe { core::mem::transmute_copy(&view) };
+    let r = cb.call(x);
+    unsafe { assert!(F_SEEN == (1, &ctx as *const u64 as usize, x) && r == (x % 2 == 0), "C16 call() reaches the published function with the published context and returns its answer") };
+    kani::cover!(true, "end");
+}
